@@ -46,7 +46,7 @@ macro_rules! impl_acc {
                 Some(match path {
                     "new" => $V::new(l[0], l[1]),
                     "from_array" => $V::from_array([l[0], l[1]]),
-                    "from_slice" => $V::from_slice(&[l[0], l[1]][..]),
+                    "from_slice" => $V::from_slice(&[l[0], l[1], l[0], l[0]][..]),          // longer than needed: only the first N are read
                     "from_array_trait" => <$V as From<[$S; 2]>>::from([l[0], l[1]]),
                     "from_tuple" => <$V as From<($S, $S)>>::from((l[0], l[1])),
                     "free_fn" => $free(l[0], l[1]),
@@ -94,7 +94,7 @@ macro_rules! impl_acc {
                 Some(match path {
                     "new" => $V::new(l[0], l[1], l[2]),
                     "from_array" => $V::from_array([l[0], l[1], l[2]]),
-                    "from_slice" => $V::from_slice(&[l[0], l[1], l[2]][..]),
+                    "from_slice" => $V::from_slice(&[l[0], l[1], l[2], l[0], l[0]][..]),
                     "from_array_trait" => <$V as From<[$S; 3]>>::from([l[0], l[1], l[2]]),
                     "from_tuple" => <$V as From<($S, $S, $S)>>::from((l[0], l[1], l[2])),
                     "free_fn" => $free(l[0], l[1], l[2]),
@@ -142,7 +142,7 @@ macro_rules! impl_acc {
                 Some(match path {
                     "new" => $V::new(l[0], l[1], l[2], l[3]),
                     "from_array" => $V::from_array([l[0], l[1], l[2], l[3]]),
-                    "from_slice" => $V::from_slice(&[l[0], l[1], l[2], l[3]][..]),
+                    "from_slice" => $V::from_slice(&[l[0], l[1], l[2], l[3], l[0], l[0]][..]),
                     "from_array_trait" => <$V as From<[$S; 4]>>::from([l[0], l[1], l[2], l[3]]),
                     "from_tuple" => <$V as From<($S, $S, $S, $S)>>::from((l[0], l[1], l[2], l[3])),
                     "free_fn" => $free(l[0], l[1], l[2], l[3]),
@@ -262,7 +262,7 @@ macro_rules! impl_quat_acc {
                 Some(match path {
                     "new" => $Q::from_xyzw(l[0], l[1], l[2], l[3]),
                     "from_array" => $Q::from_array([l[0], l[1], l[2], l[3]]),
-                    "from_slice" => $Q::from_slice(&[l[0], l[1], l[2], l[3]][..]),
+                    "from_slice" => $Q::from_slice(&[l[0], l[1], l[2], l[3], l[0], l[0]][..]),
                     "from_tuple" => $Q::from_vec4($V4::new(l[0], l[1], l[2], l[3])),
                     "free_fn" => $free(l[0], l[1], l[2], l[3]),
                     _ => return None,
